@@ -21,7 +21,7 @@ STATS = {"add": 0, "double": 0, "mul": 0, "mul_add": 0, "skipped_other_curve": 0
 NAMES = {}
 for _c in _curves.curves:
     if _c.name not in ("Ed25519", "Ed448"):
-        NAMES[(int(_c.curve.p()), int(_c.curve.a()) % int(_c.curve.p()), int(_c.curve.b()) % int(_c.curve.p()))] = (_c.openssl_name, int(_c.order))
+        NAMES[(int(_c.curve.p()), int(_c.curve.a()) % int(_c.curve.p()), int(_c.curve.b()) % int(_c.curve.p()))] = (_c.openssl_name, int(_c.order), int(_c.curve.cofactor() or 1))
 
 
 def _key(pt):
@@ -49,6 +49,25 @@ def _add(P, Q, p, a):
         l = (Q[1] - P[1]) * pow(Q[0] - P[0], -1, p) % p
     x = (l * l - P[0] - Q[0]) % p
     return x, (l * (P[0] - x) - P[1]) % p
+
+
+def _smul(A, k, info, p, a):
+    """k*A for ANY point A of the curve.  Cofactor 1: every point has order n, OpenSSL with k mod n.  Cofactor > 1 (SECP112r2):
+    the tests also feed points outside the prime-order subgroup, for which reducing k mod n is wrong - exact affine
+    double-and-add with the full scalar instead."""
+    n, h = info[1], info[2]
+    if A is None:
+        return None
+    if h == 1:
+        return None if k % n == 0 else ossl.point_mul(info[0], None, A, k % n)
+    k %= n * h
+    R, Q = None, A
+    while k:
+        if k & 1:
+            R = _add(R, Q, p, a)
+        Q = _add(Q, Q, p, a)
+        k >>= 1
+    return R
 
 
 def _viol(what, detail):
@@ -120,7 +139,7 @@ def w_mul(self, other):
     STATS["mul"] += 1
     k = int(other)
     try:
-        want = None if (A is None or k % info[1] == 0) else ossl.point_mul(info[0], None, A, k % info[1])
+        want = _smul(A, k, info, p, a)
     except ossl.OsslError:
         return res  # operand not on the curve: a test feeding garbage, nothing to compare
     if got != want:
@@ -146,8 +165,8 @@ def w_mul_add(self, self_mul, other, other_mul):
     STATS["mul_add"] += 1
     n = info[1]
     try:
-        t1 = None if (A is None or int(self_mul) % n == 0) else ossl.point_mul(info[0], None, A, int(self_mul) % n)
-        t2 = None if (B is None or int(other_mul) % n == 0) else ossl.point_mul(info[0], None, B, int(other_mul) % n)
+        t1 = _smul(A, int(self_mul), info, p, a)
+        t2 = _smul(B, int(other_mul), info, p, a)
     except ossl.OsslError:
         return res
     want = _add(t1, t2, p, a)
